@@ -77,14 +77,14 @@ func (c *Cluster) Start(i int) error {
 	if err != nil {
 		return err
 	}
-	rc.PosSampler = func(name string) [2]uint64 {
+	rc.SetPosSampler(func(name string) [2]uint64 {
 		db := n.Store.DB(name)
 		if db == nil {
 			return [2]uint64{}
 		}
 		p := db.Pos()
 		return [2]uint64{uint64(p.TXID), uint64(p.PostApplyChecksum)}
-	}
+	})
 	cn.Node = n
 	cn.Proxy.SetTarget(strings.TrimPrefix(n.URL(), "http://"))
 	cn.Proxy.SetMode("pass")
